@@ -1,2 +1,195 @@
--- stub: driver for C16 not written yet
-def main : IO Unit := pure ()
+import CMacVerif.Model.Morton
+import CMacVerif.Model.Shells
+import CMacVerif.Model.AMRTree
+import CMacVerif.Model.Cartesian
+import CMacVerif.Inst.Float
+import CMacVerif.Util.Bits
+open CMacVerif CMacVerif.Util
+
+/-! Line-protocol driver of C16 (see `tools/props/c16.py` for the op grammar). -/
+
+def int! (s : String) : Int := s.toInt?.getD 0
+def flt! (s : String) : Float := fOfBits (nat! s)
+
+/-- order-sensitive checksum of a visit sequence -/
+def mixOff (acc : Nat) (i : Nat) (rx ry rz : Int) : Nat :=
+  let code := (((rx + 100000).toNat * 200003 + (ry + 100000).toNat) * 200003 + (rz + 100000).toNat)
+  (acc + (code % 1000000007) * (i + 1)) % 1000000007
+
+namespace Sh
+open CMacVerif.Shells
+
+/-- walk the traversal from the anchor block to the end of level `L` -/
+partial def shellWalk (L : Int) (s : Idx) (i cnt chk : Nat) : Nat × Nat × Nat :=
+  if s.level > L then (cnt, chk, i)
+  else
+    let (cnt', chk') := if s.level = L then (cnt + 1, mixOff chk cnt s.rx s.ry s.rz) else (cnt, chk)
+    shellWalk L (increaseIndices s) (i + 1) cnt' chk'
+
+/-- all blocks of a cubic grid in the order of `increase_range` -/
+partial def rangeWalk (ax ay az s : Int) (mx : Idx) (fuel : Nat) (cur : Idx) (i chk lvlUps : Nat) : String :=
+  match increaseRange ax ay az s s s mx fuel cur with
+  | .atEnd => s!"range {i + 1} {chk} {cur.rx} {cur.ry} {cur.rz} {cur.level} {lvlUps}"
+  | .fuelOut => "range fuel-out"
+  | .next n =>
+    rangeWalk ax ay az s mx fuel n (i + 1) (mixOff chk (i + 1) n.rx n.ry n.rz)
+      (if n.level > cur.level then lvlUps + 1 else lvlUps)
+
+def branchOfMax (ax ay az sx sy sz : Int) : String :=
+  let m := setMaxRange ax ay az sx sy sz
+  if m.rz = -az ∧ -az ≠ sz - az - 1 then "mz-min"
+  else if m.ry = -ay ∧ -ay ≠ sy - ay - 1 then "my-min"
+  else if m.rx = -ax ∧ -ax ≠ sx - ax - 1 then "mx-min" else "all-max"
+
+def incBranch (s : Idx) : String :=
+  if s.rz = s.level then (if s.ry = s.level then (if s.rx = s.level then "next-level" else "rx+1") else "ry+1")
+  else if iabs s.rx < s.level ∧ iabs s.ry < s.level then "jump-rz" else "rz+1"
+end Sh
+
+namespace Am
+open CMacVerif.AMR CMacVerif.GridNum
+
+def showBox (b : Box3 Float) : String :=
+  s!"{showF b.ax} {showF b.ay} {showF b.az} {showF b.sx} {showF b.sy} {showF b.sz}"
+
+/-- `key = first; while (key != max) { ...; key = next(key) }` with count and checksum -/
+partial def enumWalk (g : Grid) (key : Nat) (cnt chk : Nat) : Nat × Nat :=
+  if key = maxKey64 then (cnt, chk)
+  else enumWalk g (gridNextKey g key) (cnt + 1) ((chk * 31 + key % 1000000007) % 1000000007)
+
+def gridLeaves (g : Grid) : Nat :=
+  (List.range g.nx).foldl (fun a ix => (List.range g.ny).foldl (fun a iy =>
+    (List.range g.nz).foldl (fun a iz => a + numLeaves (g.block ix iy iz)) a) a) 0
+end Am
+
+namespace Ca
+open CMacVerif.Cartesian CMacVerif.GridNum
+
+def dblMax : Float := fOfBits 0x7FEFFFFFFFFFFFFF
+
+def showV (v : V3 Float) : String := s!"{showF v.x} {showF v.y} {showF v.z}"
+def showB (b : Box3 Float) : String :=
+  s!"{showF b.ax} {showF b.ay} {showF b.az} {showF b.sx} {showF b.sy} {showF b.sz}"
+
+def tableAt (t : Array Float) (c : Int) (shift : Nat) : Float :=
+  if t.size = 0 then 0.0 else t[(c.toNat + shift) % t.size]!
+
+/-- per-cell mean intensity `J[c] += ds * weight * sigma_H` in visit order (only cells with a
+positive density are updated, `update_integrals`) -/
+def accumulate (m : Medium Float) (path : List (Int × Float)) : List (Int × Float) :=
+  path.reverse.foldl (fun acc (c, ds) =>
+    if m.dens c > 0.0 then
+      let dj := ds * 1.0 * m.sigH
+      match acc.find? (fun e => e.1 == c) with
+      | some _ => acc.map (fun e => if e.1 == c then (e.1, e.2 + dj) else e)
+      | none => acc ++ [(c, dj)]
+    else acc) []
+
+def insertSorted (e : Int × Float) : List (Int × Float) → List (Int × Float)
+  | [] => [e]
+  | h :: r => if e.1 < h.1 then e :: h :: r else h :: insertSorted e r
+
+def sortByCell (l : List (Int × Float)) : List (Int × Float) := l.foldl (fun acc e => insertSorted e acc) []
+end Ca
+
+structure St where
+  cart : Cartesian.Grid Float := Cartesian.mkGrid ⟨0.0, 0.0, 0.0, 1.0, 1.0, 1.0⟩ ⟨1, 1, 1⟩ false false false
+  xtab : Array Float := #[]
+  dtab : Array Float := #[]
+  amr : AMR.Grid := ⟨1, 1, 1, fun _ _ _ => .leaf⟩
+  amrBox : GridNum.Box3 Float := ⟨0.0, 0.0, 0.0, 1.0, 1.0, 1.0⟩
+
+def step (st : St) : List String → St × String
+  | ["morton", ax, ay, az, sx, sy, sz, cx, cy, cz] =>
+    let k := Morton.getKey (flt! cx) (flt! cy) (flt! cz) (flt! ax) (flt! ay) (flt! az) (flt! sx) (flt! sy) (flt! sz)
+    (st, s!"morton {k}")
+  | ["inc", rx, ry, rz, lv] =>
+    let s : Shells.Idx := ⟨int! rx, int! ry, int! rz, int! lv⟩
+    let n := Shells.increaseIndices s
+    let o := s!"{n.rx} {n.ry} {n.rz} {n.level}"
+    (st, s!"inc {o} | {o} #inc-{Sh.incBranch s}")
+  | ["shell", l] =>
+    let (cnt, chk, tot) := Sh.shellWalk (int! l) Shells.start 0 0 0
+    (st, s!"shell {cnt} {chk} {tot}")
+  | ["maxrange", ax, ay, az, sx, sy, sz] =>
+    let m := Shells.setMaxRange (int! ax) (int! ay) (int! az) (int! sx) (int! sy) (int! sz)
+    let o := s!"{m.rx} {m.ry} {m.rz} {m.level}"
+    (st, s!"maxrange {o} | {o} #max-{Sh.branchOfMax (int! ax) (int! ay) (int! az) (int! sx) (int! sy) (int! sz)}")
+  | ["range", ax, ay, az, s] =>
+    let (ax, ay, az, s) := (int! ax, int! ay, int! az, int! s)
+    let mx := Shells.setMaxRange ax ay az s s s
+    let fuel := ((2 * mx.level + 3) ^ 3).toNat
+    (st, Sh.rangeWalk ax ay az s mx fuel Shells.start 0 (mixOff 0 0 0 0 0) 0)
+  | ["amr", "new", ax, ay, az, sx, sy, sz, nx, ny, nz, lv] =>
+    let g := AMR.Grid.mk' (nat! nx) (nat! ny) (nat! nz) (nat! lv)
+    ({ st with amr := g, amrBox := ⟨flt! ax, flt! ay, flt! az, flt! sx, flt! sy, flt! sz⟩ },
+      s!"amr new {Am.gridLeaves g}")
+  | ["amr", "refine", key] =>
+    let (g, nk) := AMR.gridRefine st.amr (nat! key)
+    ({ st with amr := g }, s!"amr refine {nk} {Am.gridLeaves g}")
+  | ["amr", "enum"] =>
+    let (cnt, chk) := Am.enumWalk st.amr (AMR.gridFirstKey st.amr) 0 0
+    (st, s!"amr enum {cnt} {chk}")
+  | ["amr", "next", key] => (st, s!"amr next {AMR.gridNextKey st.amr (nat! key)}")
+  | ["amr", "loc", px, py, pz] =>
+    let p : GridNum.V3 Float := ⟨flt! px, flt! py, flt! pz⟩
+    let g := st.amr
+    let b := st.amrBox
+    let ix := AMR.blockIndex g.nx p.x b.ax b.sx
+    let iy := AMR.blockIndex g.ny p.y b.ay b.sy
+    let iz := AMR.blockIndex g.nz p.z b.az b.sz
+    if ix ≥ g.nx ∨ iy ≥ g.ny ∨ iz ≥ g.nz then (st, s!"amr loc out-of-range {ix} {iy} {iz} #amr-out-of-range")
+    else
+    if AMR.descendOutOfRange (g.block ix iy iz) p (AMR.blockBox g b ix iy iz) then (st, "amr loc out-of-range child #amr-out-of-range-child")
+    else
+    let (k, bx) := AMR.gridLocate g b p
+    (st, s!"amr loc {k} {Am.showBox bx} #amr-depth-{(AMR.decodeKey (AMR.cellOfKey k)).length}")
+  | ["amr", "ngbs", _, _, _] => (st, "amr ngbs")
+  | ["amr", "key", lv, px, py, pz] =>
+    (st, s!"amr key {AMR.gridKeyAtLevel st.amr st.amrBox (nat! lv) ⟨flt! px, flt! py, flt! pz⟩}")
+  | ["cart", "new", ax, ay, az, sx, sy, sz, nx, ny, nz, px, py, pz] =>
+    let g := Cartesian.mkGrid (α := Float) ⟨flt! ax, flt! ay, flt! az, flt! sx, flt! sy, flt! sz⟩
+      ⟨int! nx, int! ny, int! nz⟩ (px == "1") (py == "1") (pz == "1")
+    ({ st with cart := g }, s!"cart new {g.n.x * g.n.y * g.n.z} {showF (Cartesian.cellVolume g)}")
+  | "cart" :: "medium" :: kx :: rest =>
+    let k := nat! kx
+    let xs := (rest.take k).map flt!
+    let ds := (rest.drop (k + 1)).map flt!
+    ({ st with xtab := xs.toArray, dtab := ds.toArray }, "cart medium")
+  | ["cart", "vol"] => (st, s!"cart vol {st.cart.n.x * st.cart.n.y * st.cart.n.z}")
+  | ["cart", "loc", px, py, pz] =>
+    let g := st.cart
+    let i := Cartesian.cellIndices g ⟨flt! px, flt! py, flt! pz⟩
+    let inr := decide (0 ≤ i.x ∧ i.x < g.n.x ∧ 0 ≤ i.y ∧ i.y < g.n.y ∧ 0 ≤ i.z ∧ i.z < g.n.z)
+    let inrS := if inr then "in-range" else "out-of-range"
+    (st, s!"cart loc {i.x} {i.y} {i.z} {Cartesian.longIndex g.n i} {Ca.showB (Cartesian.cellBox g i)} #cart-{inrS}")
+  | ["cart", "ngb", l] =>
+    let g := st.cart
+    let i := Cartesian.indicesOf g.n (int! l)
+    let ns := (Cartesian.neighbours g i).map (fun o => match o with | some v => toString v | none => "-1")
+    let nb := ((Cartesian.neighbours g i).filter Option.isNone).length
+    let nsS := " ".intercalate ns
+    (st, s!"cart ngb {i.x} {i.y} {i.z} {nsS} #cart-ngb-boundary-{nb}")
+  | ["cart", "ray", px, py, pz, dx, dy, dz, tau, sh, she] =>
+    let g := st.cart
+    let d : GridNum.V3 Float := ⟨flt! dx, flt! dy, flt! dz⟩
+    let inv : GridNum.V3 Float := ⟨1.0 / d.x, 1.0 / d.y, 1.0 / d.z⟩
+    let sH := flt! sh
+    let sHe := flt! she
+    let m : Cartesian.Medium Float := ⟨sH, sHe, fun c => Ca.tableAt st.dtab c 0,
+      fun c => Ca.tableAt st.xtab c 0, fun c => Ca.tableAt st.xtab c 1⟩
+    let r := Cartesian.interact Ca.dblMax g m ⟨flt! px, flt! py, flt! pz⟩ d inv (flt! tau) 200000
+    if !r.finished then (st, "cart ray fuel-out") else
+    let js := (Ca.sortByCell (Ca.accumulate m r.path)).filter (fun e => e.2 != 0.0)
+    let total := js.foldl (fun a e => a + e.2) 0.0
+    let shown := (js.take 10).map (fun e => s!"{e.1} {showF e.2}")
+    let cellS := match r.cell with | some c => toString c | none => "-1"
+    let wrapped := r.path.length > 0 && (r.cell.isSome || true)
+    let tag := (if r.cell.isSome then "absorbed" else "escaped") ++
+      (if r.ncell = 0 then "-nocell" else if r.ncell = 1 then "-1cell" else "-multi") ++
+      (if g.px || g.py || g.pz then "-periodic" else "") ++ (if wrapped then "" else "")
+    let shownS := " ".intercalate ([s!"cart ray {cellS} {Ca.showV r.pos} {js.length} {showF total}"] ++ shown)
+    (st, s!"{shownS} #cart-{tag}")
+  | _ => (st, "bad-op")
+
+def main : IO Unit := runDriver step ({} : St)
